@@ -130,6 +130,12 @@ def judge(case, impl, model):
         if not obs["is_structure"]:
             fails.append((f"not-a-structure:{kind}", f"{what} is not a Structure class"))
         for f in obs["retained"]:
+            d = f.get("diff") if isinstance(f.get("diff"), dict) else None
+            if d and isinstance(d.get("value"), dict) and (set(d["value"]) & {"fs", "s"}) \
+                    and "err" in (d.get("first") or {}) and "err" in (d.get("second") or {}):
+                # both classes REJECT the set-valued probe; which element is met first (and so whether the
+                # rejection is a TypeError or a ValueError) depends on the iteration order of the two set objects
+                continue
             if "diff" in f:
                 fails.append((f"retained-field-behaviour:{kind}",
                               f"{what}.{f['field']} differs from the source: " + json.dumps(f["diff"])[:240]))
